@@ -83,7 +83,13 @@ func convert(in interface{}) Object {
 			if k.Kind() == reflect.Interface {
 				k = k.Elem()
 			}
-			newMap.items[k.String()] = convert(val.MapIndex(k))
+			// reflect.Value.String() of a key that is not a string is "<int Value>" for every key:
+			// all entries collapsed into one, chosen by map iteration order
+			key := k.String()
+			if k.Kind() != reflect.String {
+				key = fmt.Sprint(k.Interface())
+			}
+			newMap.items[key] = convert(val.MapIndex(k))
 		}
 
 		if sortable, ok := val.Interface().(sortable); ok {
